@@ -11,6 +11,22 @@ static void sb_qint(const lp_rational_interval_t* I) {
 }
 
 static void one_case(void) {
+  if (chance(25)) {
+    /* a batch of dense polynomials with small coefficients (degree 5-8): isolation only, cheap */
+    for (int t = 0; t < 4; ++t) {
+      gen_root_poly_dense = 1; lp_upolynomial_t* g = gen_root_poly(8); gen_root_poly_dense = 0;
+      size_t d = lp_upolynomial_degree(g), n = 0;
+      lp_algebraic_number_t* roots = (lp_algebraic_number_t*)malloc((d + 1) * sizeof(lp_algebraic_number_t));
+      sb_begin("roots", "isolate"); sb_sp(); sb_upoly(g); sb_arrow();
+      lp_upolynomial_roots_isolate(g, roots, &n);
+      sb_sp(); sb_ulong(n);
+      for (size_t i = 0; i < n; ++i) { sb_sp(); sb_alg(&roots[i]); }
+      sb_emit();
+      for (size_t i = 0; i < n; ++i) lp_algebraic_number_destruct(&roots[i]);
+      free(roots); lp_upolynomial_delete(g);
+    }
+    return;
+  }
   lp_upolynomial_t* f = gen_root_poly(chance(80) ? 6 : 9);
   unsigned op = rnd(100);
   if (op < 40) {
